@@ -496,6 +496,7 @@ fn run_one(cx: &mut Ctx, c: &Value) {
         Some("lines") => lines_case(cx, c["text"].as_str().unwrap_or("")),
         Some("case") => case_conv(cx, &bytes_of(&c["text"])),
         Some("split") => split_case(cx, c["text"].as_str().unwrap_or(""), c["d"].as_u64().unwrap_or(44) as u8),
+        Some("cmpk") => x::cmpk_emit(cx, &bytes_of(&c["a"]), &bytes_of(&c["b"])),
         Some("faststr_deep") => more::faststr_deep(cx, &bytes_of(&c["a"])),
         Some("streaming") => more::streaming_case(cx, &strs_of(&c["strings"]), &bytes_of(&c["terms"]), c["cut_last"].as_bool().unwrap_or(false)),
         Some("sortable") => more::sortable_case(cx, &strs_of(&c["strings"]), &strs_of(&c["probes"])),
@@ -607,7 +608,7 @@ pub fn run(args: &Args) {
     }
     // --- FastStr
     // + the allowances of the extension families (c20_x.rs), which do not go through push_coq
-    cx.budget = if args.thorough { 30000 + 6 * 1911 } else { 4000 + 1911 };
+    cx.budget = if args.thorough { 30000 + 6 * 2161 } else { 4000 + 2161 };
     // deep oracle: every length 0..=130, differently built contents (high-bit bytes, tiny alphabet, boundary bytes)
     for rep in 0..(if args.thorough { 8 } else { 1 }) {
         for n in 0..=130usize {
@@ -619,6 +620,14 @@ pub fn run(args: &Args) {
             if rep == 0 {
                 // model tie at every length (all chunk counts and remainders of the hash paths, needles inside / flipped at the end)
                 x::fast_emit(&mut cx, &a, &a[n / 3..(n / 3 + n / 4 + 1).min(n)], true);
+                if n >= 2 {
+                    let mut c = a.clone();
+                    let (i, j) = (n / 2, (n / 2 + 1 + n % 7).min(n - 1));
+                    c[i] = c[i].wrapping_add(1);
+                    c[j] = c[j].wrapping_sub(1);
+                    x::cmpk_emit(&mut cx, &a, &c);
+                    x::cmpk_emit(&mut cx, &a[..n - n / 5], &a);
+                }
                 if n % 3 == 0 {
                     let mut nd = b[n / 2..].to_vec();
                     if let Some(l) = nd.last_mut() { *l ^= 0x80; }
@@ -638,6 +647,7 @@ pub fn run(args: &Args) {
             _ => rand_bytes_biased(&mut rng, 6),
         };
         faststr_case(&mut cx, &a, &b);
+        x::cmpk_emit(&mut cx, &a, &b);
         if i % 2 == 0 { wide::faststr_extra(&mut cx, &a, &b); }
     }
     // exhaustive small find/compare universe
